@@ -12,7 +12,8 @@ code, and that every schedule of two or three operations ends in a state some se
 gives, is searched by the schedule exploration under the deterministic scheduler (not a proof).
 End to end, for every state of the tower invariant: `accepted_then_block_finds_it` /
 `accepted_then_block_answers_it` (A then the whole of B: the penalty is dealt with by that block's
-handler) and `block_then_late_add_is_triggered` (the whole of B then A: the triggered path).
+handler) and `block_then_late_add_is_triggered` / `block_then_late_add_answers_it` (the whole of B then A: the
+triggered path, and the penalty dealt with within the submission's own RPCs).
 PARTIAL: the model is at critical-section granularity; tokio scheduling, the relaxed atomics of the
 height counters (start_block / in-mempool-since stamps may mix two heights) are outside it.
 -/
@@ -461,6 +462,47 @@ theorem renewals_of_two_users_commute (cfg : Cfg) (s : Tower) (u v : User) (ui v
   simp only [hu, hv]
   by_cases cu : ui.slots + cfg.slots > u32Max <;> by_cases cv : vi.slots + cfg.slots > u32Max <;>
     simp [cu, cv, hu, hv, hne, hne'] <;> (by_cases hx : x = u <;> by_cases hy : x = v <;> simp_all)
+
+/-- **block_then_late_add_answers_it** (B before A, to the end): under the hypotheses of
+`block_then_late_add_is_triggered`, if the blob decrypts under the transaction found for the locator,
+the penalty is dealt with (`Answered`) within the RPCs of the submission itself, i.e. before its reply. -/
+theorem block_then_late_add_answers_it (s : Tower) (node : Node) (b height : Nat) (txs : List TxId) (d : TxId)
+    (hd : d ∈ txs)
+    (hkeep : ∀ h rest, (s.mem.cache.blocks ++ [b]) = h :: rest →
+        Gen.txIndexIsFull (s.mem.cache.blocks ++ [b]).length s.mem.cache.size = true →
+        locOf d ∉ ((if h = b then some (txs.map locOf) else s.mem.cache.txIn h).getD []))
+    (signer : Option User) (blob : Blob) (tsd usig : Nat) (u : User) (ui : UserInfo)
+    (ha : authCheck (watcherConnect s node b height txs).1 signer = .ok (u, ui))
+    (hnt : (watcherConnect s node b height txs).1.db.trackers (locOf d, u) = none)
+    (s1 : Tower) (avail : Nat)
+    (hch : addUpdateAppointment (watcherConnect s node b height txs).1 u (locOf d, u) blob.len = (s1, some avail)) :
+    ∃ d', locOf d' = locOf d ∧ ∀ p, blob.decrypt d' = some p →
+      Answered s1 node (addAppointment (watcherConnect s node b height txs).1 node signer (locOf d) blob tsd usig).2.2 p := by
+  obtain ⟨d', hget, hloc⟩ := late_add_sees_block s.mem.cache b txs d hd hkeep
+  have hc1 : s1.mem.cache = (watcherConnect s node b height txs).1.mem.cache := by
+    have := (shrink_addUpdateAppointment (watcherConnect s node b height txs).1 u (locOf d, u) blob.len).cache
+    rw [hch] at this; exact this
+  have hc : s1.mem.cache.get (locOf d) = some d' := by rw [hc1, watcherConnect_cache]; exact hget
+  refine ⟨d', hloc, fun p hp => ?_⟩
+  have hlog : (addAppointment (watcherConnect s node b height txs).1 node signer (locOf d) blob tsd usig).2.2 =
+      (storeTriggeredAppointment s1 node (locOf d, u)
+        { loc := locOf d, user := u, blob := blob, tsd := tsd, usig := usig,
+          start := (watcherConnect s node b height txs).1.mem.wHeight } d').2 := by
+    unfold addAppointment
+    simp [ha, hnt, hch, hc]
+  have hlate : ∀ (t : Tower) (k : Uuid) (a : Appt), a.blob.decrypt d' = some p →
+      (storeTriggeredAppointment t node k a d').2 = (handleBreach (storeAppointment t k a) node k d' p a.user).2.2 := by
+    intro t k a hdec
+    unfold storeTriggeredAppointment
+    simp only [hdec]
+    split <;> rfl
+  rw [hlog, hlate _ _ _ hp]
+  have := (handleBreach_answers (storeAppointment s1 (locOf d, u)
+        { loc := locOf d, user := u, blob := blob, tsd := tsd, usig := usig,
+          start := (watcherConnect s node b height txs).1.mem.wHeight }) node (locOf d, u) d' p u).2.2.2.2
+  unfold Answered at this ⊢
+  rw [storeAppointment_mem] at this
+  exact this
 
 /-- **no_orphan_record**: an appointment cannot be inserted for a user that is gone, a tracker
 cannot be inserted without its appointment, and removing a user removes everything it owns -/
